@@ -131,6 +131,7 @@ func load(dir string, inline bool) (*World, error) {
 	}
 	all := ssautil.AllFunctions(prog)
 	w.CG = vta.CallGraph(all, cha.CallGraph(prog))
+	edgeWorld = w
 	w.Funcs = map[string]*ssa.Function{}
 	for fn := range all {
 		if fn.Pkg != w.Main && !(fn.Pkg == nil && fn.Parent() != nil && topParent(fn).Pkg == w.Main) {
